@@ -88,6 +88,16 @@ check("C03", "validator over simulated runs", "exploration",
       "Same trust base as C01; the monitor sees only images the generator and configuration swarm produce.",
       "deterministic simulation: invariant monitor over all images produced by simulated runs", "DESIGN.md 5/C03")
 
+check("C08", "tool-sim", "exploration",
+      "xxh32 is masked to 2..8 bits at link time so that many different blocks / tail ends of equal stored size collide; collision "
+      "workloads (equal-length distinct tails, equal-size incompressible blocks, true duplicates, dont_deduplicate/dont_fragment flags) "
+      "are packed under seeded -j/-Q/schedules/stalled workers. Oracle: every file byte-exact via the independent decoder, true "
+      "duplicates share storage, image equals the serial-pool image for the same checksum width. Reach probes (guarded hook) for each "
+      "compare path - in-flight copy, current fragment block, re-read from disk, equal/differ, block-writer range equal/differ - must "
+      "be non-zero, otherwise the check exits 2.",
+      "Collisions are forced on the checksum; equal compressed sizes come from the workload. Schedules are sampled.",
+      "deterministic simulation: fault injection on the checksum function x seeded schedule search", "DESIGN.md 5/C08")
+
 PENDING = ["C01","C02","C03","C04","C05","C06","C07","C08","C10","C11","C12","C13","C14","C15","C19"]
 NA_REASONS = {
  "C16": "pure relation between two text transducers (describe printer, pack-file tokenizer); no schedule, clock, fault, crash point or history in the statement - deciding it is input enumeration, which deterministic simulation does not do (DESIGN.md section 0)",
@@ -107,11 +117,11 @@ def main():
             "guard": "AGENTD_SQUASHFS_TOOLS_NG_VERIF",
             "enable": "py/vfbuild.py compiles every project source from /repo's working tree with -DAGENTD_SQUASHFS_TOOLS_NG_VERIF and links it with simos under GNU ld --wrap",
             "baseline_off_cmd": "make -C /repo -j16 check",
-            "source_commits": [],
+            "source_commits": ["e4d756b"],
             "add_only": True,
         },
         "engines": [
-            {"name": "tool-sim", "path": "simos/ + py/pipelines.py", "serves_properties": ["C01", "C02", "C03", "C11", "C12", "C13", "C14"], "kind_free_text": "each tool's real sources linked with simos under --wrap; one process per simulated run"},
+            {"name": "tool-sim", "path": "simos/ + py/pipelines.py", "serves_properties": ["C01", "C02", "C03", "C08", "C11", "C12", "C13", "C14"], "kind_free_text": "each tool's real sources linked with simos under --wrap; one process per simulated run"},
             {"name": "pool-sim", "path": "scn/pool.c", "serves_properties": ["C09"], "kind_free_text": "real threadpool.c under the simos scheduler, many runs per process"},
         ],
         "checks": [CHECKS[k] for k in sorted(CHECKS)],
